@@ -21,6 +21,7 @@ class C02(MotionMonitor):
     classes = [(3, "no-regions", {}), (3, "disabled-throughout", {}),
                (4, "avoided", mk(arcs=True, arcs_rel=True, rel=True, inch=True, avoid=True, p_inside=0.0, margin=0.05, g28mid=False,
                                  spell=True)),
+               (2, "avoided-with-toggles", mk(arcs=True, arcs_rel=True, rel=True, at=True, avoid=True, p_inside=0.0, margin=0.05)),
                (1, "avoided-firmware", mk(fw=True, arcs=True, arcs_rel=True, rel=True, avoid=True, p_inside=0.0, retmove=True))]
 
     def gen_case(self, rnd, tier, k):
@@ -83,4 +84,5 @@ class C02(MotionMonitor):
                     sample=sample_of(case, tr))
 
     def thresholds(self, tier):
-        return {"c02_commands_compared": 5000, "class:avoided": 50, "class:no-regions": 50, "class:disabled-throughout": 50}
+        return {"c02_commands_compared": 5000, "class:avoided": 50, "class:no-regions": 50, "class:disabled-throughout": 50,
+                "class:avoided-with-toggles": 30}
